@@ -8,6 +8,7 @@ import shutil
 import tempfile
 
 from . import runbase as RB
+from ..ref import runmodel
 from ..gen.prog import OUTCOMES
 from ..gen.render import render_feature
 
@@ -28,9 +29,11 @@ ASSUMPTIONS = [
 REQUIRED = {"rerun.lists_exactly_unsuccessful": {"quick": 500, "thorough": 25000},
             "rerun.second_run_selects_exactly": {"quick": 250, "thorough": 12000},
             "rerun.stale_file_removed": {"quick": 20, "thorough": 1000},
-            "rerun.second_run_executes_exactly": {"quick": 250, "thorough": 12000}}
+            "rerun.second_run_executes_exactly": {"quick": 250, "thorough": 12000},
+            "rerun.lists_what_the_reference_model_says_failed": {"quick": 150, "thorough": 8000},
+            "rerun.scenario_whose_hook_raised_is_listed": {"quick": 40, "thorough": 2000}}
 REQUIRED_SEEN = {"listed_status": ["failed", "error", "hook_error"], "feature_order": ["directory", "explicit_reversed"],
-                 "fail_fast_environment": ["feature", "rule"]}
+                 "fail_fast_environment": ["feature", "rule"], "raising_hook_of_listed_scenario": ["before_tag", "after_tag", "before_scenario", "before_step"]}
 NSHARDS = {"quick": 16, "thorough": 16}
 
 
@@ -133,6 +136,27 @@ def one_history(lab, mon, rng, case, stale, sample=False):
         got = lines or []
         mon.check("rerun.lists_exactly_unsuccessful", got == [w[0] for w in want],
                   lambda: W(got=got, want=[list(w) for w in want], file_exists=lines is not None))
+        # ---- independent of the statuses behave assigned: what the reference model / the harness know ----------------
+        loc_name = {}
+        for f in feats:
+            for sc in f.walk_scenarios():
+                loc_name[str(sc.location)] = sc.name
+        listed_names = [loc_name.get(l) for l in got]
+        unique = len(set(status_of)) == sum(1 for f in feats for _ in f.walk_scenarios())
+        if unique and not (case.get("hook_fault") or case.get("fail_fast") or case.get("raising_cleanup") or case["cfg"].get("cafs")) \
+                and not (case["cfg"].get("stop") and order != "directory"):
+            pred = runmodel.predict(case["program"], case["cfg"])
+            model_failed = sorted(n for n, bad in pred.scen_failed.items() if bad)
+            mon.check("rerun.lists_what_the_reference_model_says_failed", sorted(x or "?" for x in listed_names) == model_failed,
+                      lambda: W(listed=listed_names, model=model_failed, statuses=status_of))
+        if unique and case.get("hook_fault") and obs.faults_fired:
+            for fired, owner in zip(obs.faults_fired, obs.fault_owners):
+                hname, ename = fired[1], fired[2]
+                victim = ename[0] if (hname.endswith("_step") and isinstance(ename, tuple)) else owner
+                if victim in status_of:
+                    mon.check("rerun.scenario_whose_hook_raised_is_listed", victim in listed_names,
+                              lambda: W(hook=[hname, str(ename), fired[3]], scenario=victim, listed=listed_names, its_status=status_of.get(victim)))
+                    mon.seen("raising_hook_of_listed_scenario", hname)
         if cleanup_owner and obs.verdict:
             mon.check("rerun.scenario_with_failed_cleanup_is_listed", cleanup_owner[0] in got,
                       lambda: W(scenario_whose_cleanup_raised=cleanup_owner[0], listed=got,
@@ -264,7 +288,7 @@ def run(spec, mon):
             duplicate_names(case, rng)
         if i % 4 == 1:
             obs0 = lab.run(case["program"], args=case["args"])
-            ks = [k for k, h in enumerate(obs0.hooks) if h[0] in ("before_scenario", "after_scenario", "before_step", "after_step", "before_tag")]
+            ks = [k for k, h in enumerate(obs0.hooks) if h[0] in ("before_scenario", "after_scenario", "before_step", "after_step", "before_tag", "after_tag")]
             if ks:
                 case = dict(case, hook_fault={"k": rng.choice(ks), "exc": rng.choice(["Exception", "AssertionError"])})
         if i % 5 == 3:
